@@ -15,12 +15,14 @@ def run(ctx):
         "is a verbatim slice of the input or re-quoted; (T8) the four unquoter configurations match the accessors' "
         "contract (path: '+' unsafe; path_safe: '/' and '%' ignored; query_string: the only qs reader); (K4) each decoded "
         "accessor applies that unquoter to the raw text of its own component; (K2/T4) the write side uses non-requoting "
-        "quoters that escape '%' (and '+ & = ;' for query pairs); the re-quoter "
+        "quoters that escape '%' (and '+ & = ;' for query pairs) and, in both implementations, write every character as its UTF-8 escapes (shared quoter audit); the re-quoter "
         "used for query delimiters escapes '+ = & ;'. Not decided: the slice arithmetic that flushes a broken UTF-8 run.")
     model = ctx.model
     cfgs = configurations(model)
-    pq = PyQuoter(ctx, model)
-    pq.audit()
+    # the write side ("supplied text reads back unchanged") goes through both quoters: the shared audit, with the rules that
+    # are conditions of this property (common.AUDIT_CLAIMS)
+    quoter_audits(ctx, ch2=False)
+    pq = PyQuoter(ctx, model)       # policies of the pure-Python quoter for the table checks below (audited just above)
     for b in ("py", "pyx"):
         u = Unquoter(ctx, model, b)
         u.audit()
